@@ -1,6 +1,7 @@
 import Driver.Offsets
 import Driver.Tracker
 import Driver.Params
+import Driver.Recovery
 /-!
 fbdriver: reads `<id>\t<input>\t<impl observation>` lines on stdin, runs the model of the chosen
 component on `<input>` and prints one verdict line per case:
@@ -17,6 +18,7 @@ def dispatch (comp : String) : Option (String → String → Verdict) :=
   | "offsets" => some Offsets.check
   | "tracker" => some Tracker.check
   | "params" => some Params.check
+  | "recovery" => some Recovery.check
   | _ => none
 
 partial def loop (h : IO.FS.Stream) (out : IO.FS.Stream) (f : String → String → Verdict) : IO Unit := do
